@@ -1,4 +1,131 @@
-/- Line protocol of C01: placeholder until the model of this property is built. -/
+import BertE.Model.Flow
+/-
+Line protocol of the system model (used by C01 and the other history-level properties).
+One line = one whole history:   `C01 <item>;<item>;...`
+First item:  `init <useQueue 0/1> <skipQueue 0/1> <dest> <dest> ...`   (destinations in cascade order;
+             d4.3 = development/4.3, d4 = development/4, s5.1.4 = stabilization/5.1.4, h4.2.17 = hotfix/4.2.17)
+Events:      `pr <id> <src> <dst> <stage e|i|f> <orc bits|-> <sel ids|->`
+             `declined <id> <src> <dst> <childDeclined 0/1>` · `reset <id> <src> <dst>` · `queues <sel ids|->`
+             `dropq` · `mkbranch <dest> <commit>` · `rmbranch <dest>`
+             `x <name> <onTop 0/1> <parent commits|->` · `xw <dest> <src>` · `xdel <name>` · `xpoint <name> <commit>`
+Answer: per item `outcome|ref=commit,...|queued pr ids|tip:ancestor tips,...` joined by `;`.
+Refs print as `D:<dest>`, `W:<dest>:<src>`, `Q:<dest>`, `QW:<pr>:<dest>:<src>`, `O:<name>`.
+-/
 namespace BertE.Drv.C01
-def handle (_args : List String) : String := "bad-op"
+open BertE.Git BertE.Flow
+
+def parseNats (s : String) (sep : String) : Option (List Nat) :=
+  if s == "-" || s == "" then some [] else (s.splitOn sep).mapM String.toNat?
+
+def parseDest (s : String) : Option Dest :=
+  match s.toList with
+  | 'd' :: rest =>
+    match (String.ofList rest).splitOn "." with
+    | [a] => a.toNat?.map (fun M => Dest.dev M none)
+    | [a, b] => do let M ← a.toNat?; let m ← b.toNat?; pure (Dest.dev M (some m))
+    | _ => none
+  | 's' :: rest =>
+    match (String.ofList rest).splitOn "." with
+    | [a, b, c] => do let M ← a.toNat?; let m ← b.toNat?; let u ← c.toNat?; pure (Dest.stab M m u)
+    | _ => none
+  | 'h' :: rest =>
+    match (String.ofList rest).splitOn "." with
+    | [a, b, c] => do let M ← a.toNat?; let m ← b.toNat?; let u ← c.toNat?; pure (Dest.hotfix M m u)
+    | _ => none
+  | _ => none
+
+def showDest : Dest → String
+  | .dev M none => s!"d{M}"
+  | .dev M (some m) => s!"d{M}.{m}"
+  | .stab M m u => s!"s{M}.{m}.{u}"
+  | .hotfix M m u => s!"h{M}.{m}.{u}"
+
+def showRef : Ref → String
+  | .dest d => "D:" ++ showDest d
+  | .w d src => "W:" ++ showDest d ++ ":" ++ src
+  | .q d => "Q:" ++ showDest d
+  | .qw pr d src => s!"QW:{pr}:" ++ showDest d ++ ":" ++ src
+  | .other n => "O:" ++ n
+
+def insertSorted (x : String × Nat) : List (String × Nat) → List (String × Nat)
+  | [] => [x]
+  | y :: ys => if x.1 < y.1 then x :: y :: ys else y :: insertSorted x ys
+
+def observe (s : Sys) (outcome : String) : String :=
+  let refs := (s.remote.map (fun rc => (showRef rc.1, rc.2))).foldl (fun acc x => insertSorted x acc) []
+  let tips := (refs.map (·.2)).eraseDups
+  let anc := tips.map (fun t => s!"{t}:" ++ ".".intercalate ((tips.filter (fun a => a != t && s.g.le a t)).map toString))
+  outcome ++ "|" ++ ",".intercalate (refs.map (fun x => s!"{x.1}={x.2}")) ++ "|" ++
+    ",".intercalate (s.queue.map (fun e => toString e.pr)) ++ "|" ++ ",".intercalate anc
+
+def initSys (useQueue skipQueue : Bool) (dests : List Dest) : Sys :=
+  let r0 := Graph.empty.addCommit []
+  let root := r0.2
+  let st := dests.foldl (fun (acc : Graph × RefMap × Commit) d =>
+    let (g, refs, prev) := acc
+    match d with
+    | .hotfix _ _ _ =>
+      let r := g.addCommit [root]
+      (r.1, refs.set (.dest d) r.2, prev)
+    | _ =>
+      let r := g.addCommit [prev]
+      (r.1, refs.set (.dest d) r.2, r.2)) (r0.1, [], root)
+  { g := st.1, remote := st.2.1,
+    devs := dests.filterMap (fun d => match d with | .dev M m => some (M, m) | _ => none),
+    stabs := dests.filterMap (fun d => match d with | .stab M m u => some (M, m, u) | _ => none),
+    queue := [], useQueue := useQueue, skipQueue := skipQueue }
+
+def parseStage : String → Option Stage
+  | "e" => some .early
+  | "i" => some .integration
+  | "f" => some .final
+  | _ => none
+
+def parseBits (s : String) : List Bool :=
+  if s == "-" then [] else s.toList.map (· == '1')
+
+def parseEvent (ws : List String) : Option Event :=
+  match ws with
+  | ["pr", id, src, dst, stage, orc, sel] => do
+    let i ← id.toNat?; let d ← parseDest dst; let st ← parseStage stage; let sl ← parseNats sel ","
+    pure (.evalPr ⟨i, src, d⟩ st (parseBits orc) sl)
+  | ["declined", id, src, dst, cd] => do
+    let i ← id.toNat?; let d ← parseDest dst
+    pure (.evalDeclined ⟨i, src, d⟩ (cd == "1"))
+  | ["reset", id, src, dst] => do
+    let i ← id.toNat?; let d ← parseDest dst
+    pure (.reset ⟨i, src, d⟩)
+  | ["queues", sel] => do let sl ← parseNats sel ","; pure (.evalQueues sl)
+  | ["dropq"] => some .dropQueues
+  | ["mkbranch", dst, c] => do let d ← parseDest dst; let k ← c.toNat?; pure (.createBranch d k)
+  | ["rmbranch", dst] => do let d ← parseDest dst; pure (.deleteBranch d)
+  | ["x", name, onTop, ps] => do let l ← parseNats ps ","; pure (.extSet name l (onTop == "1"))
+  | ["xw", dst, src] => do let d ← parseDest dst; pure (.extW d src)
+  | ["xdel", name] => some (.extDelete name)
+  | ["xpoint", name, c] => do let k ← c.toNat?; pure (.extPoint name k)
+  | _ => none
+
+def runItems (s : Sys) : List String → List String → List String
+  | [], acc => acc.reverse
+  | it :: rest, acc =>
+    match parseEvent ((it.splitOn " ").filter (· ≠ "")) with
+    | none => (("bad-op " ++ it) :: acc).reverse
+    | some ev =>
+      let (s', out) := step s ev
+      runItems s' rest (observe s' out :: acc)
+
+def handle (args : List String) : String :=
+  let line := " ".intercalate args
+  match line.splitOn ";" with
+  | [] => "bad-op"
+  | first :: items =>
+    match (first.splitOn " ").filter (· ≠ "") with
+    | "init" :: uq :: sq :: dests =>
+      match dests.mapM parseDest with
+      | none => "bad-op dests"
+      | some ds =>
+        let s := initSys (uq == "1") (sq == "1") ds
+        ";".intercalate (runItems s items [observe s "init"])
+    | _ => "bad-op init"
+
 end BertE.Drv.C01
